@@ -40,7 +40,9 @@ func (e *Exec) sockOf(v Value) *udpSock {
 	return e.udpSocks[p.Obj]
 }
 
-func netTimeoutError(e *Exec) Value { return e.errorValue(e.strConst("i/o timeout (model: no datagram queued)")) }
+func netTimeoutError(e *Exec) Value {
+	return e.errorValue(e.strConst("i/o timeout (model: no datagram queued)"))
+}
 
 func init() {
 	reg := func(name string, f intrinsic) { intrinsics[name] = f }
@@ -54,6 +56,8 @@ func init() {
 		e.udpSocks[o] = &udpSock{port: 40000 + e.udpNextPort}
 		return Tuple{Ptr{Obj: o}, Iface{}}
 	})
+	reg("runtime.GOMAXPROCS", func(e *Exec, fn *ssa.Function, a []Value) Value { return e.tb.Const(64, 1) })
+	reg("runtime.Gosched", func(e *Exec, fn *ssa.Function, a []Value) Value { e.runPendingTasks(); return nil })
 	reg("(*net.UDPConn).LocalAddr", func(e *Exec, fn *ssa.Function, a []Value) Value {
 		s := e.sockOf(a[0])
 		if s == nil {
@@ -93,6 +97,9 @@ func init() {
 			e.runPendingTasks()
 		}
 		if len(s.queue) == 0 {
+			if e.inTask > 0 {
+				panic(taskParked{}) // a goroutine's receive loop with nothing left to receive
+			}
 			return Tuple{e.tb.Const(64, 0), Ptr{}, netTimeoutError(e)}
 		}
 		d := s.queue[0]
